@@ -121,7 +121,7 @@ def generate(rng, tier):
     cases = []
     thorough = tier == "thorough"
     specs = specs_pool(rng, 30 if thorough else 8)
-    n = 2500 if thorough else 350
+    n = 2500 * TH if thorough else 350
     for k in range(n):
         sp = rng.choice(specs)
         fault = rng.choice(["id", "hier", "over", "size", "none", "mut", "mut"])
